@@ -100,7 +100,7 @@ fn textops_record<T: DiffableStr + ?Sized>(
 }
 
 /// a text whose tokenization (any tokenizer) has about `ntok` tokens: "w<k> " words, one per line
-fn long_text(rng: &mut Rng, ntok: usize, alpha: usize, kind: &str) -> String {
+pub fn long_text(rng: &mut Rng, ntok: usize, alpha: usize, kind: &str) -> String {
     let mut s = String::new();
     let mut count = 0;
     while count < ntok {
@@ -123,7 +123,7 @@ fn long_text(rng: &mut Rng, ntok: usize, alpha: usize, kind: &str) -> String {
     s
 }
 
-fn mutate_text(rng: &mut Rng, s: &str, kind: &str, edits: usize, alpha: usize) -> String {
+pub fn mutate_text(rng: &mut Rng, s: &str, kind: &str, edits: usize, alpha: usize) -> String {
     let toks: Vec<String> = match kind {
         "lines" => s.tokenize_lines().iter().map(|x| x.to_string()).collect(),
         "chars" | "graphemes" => s.tokenize_chars().iter().map(|x| x.to_string()).collect(),
@@ -227,6 +227,19 @@ pub fn drive_c14(a: &Args, out: &mut Out) {
             v["big"] = json!(distinct);
             out.emit(&v);
         }
+    }
+    // a differing middle of more than 2048 x 2048 tokens (quadratic tables must not change the
+    // algorithm that is run): LCS only, where LCS and Myers disagree
+    {
+        let mk = |rng: &mut Rng| -> String { (0..2100).map(|_| format!("l{}\n", rng.below(60))).collect() };
+        let x = format!("head\n{}tail\n", mk(&mut rng));
+        let y = format!("head\n{}tail\n", mk(&mut rng));
+        let case = out.next_case();
+        let mut v = textops_record::<str>(case, Algorithm::Lcs, "lines", "str", -1, &x, &y);
+        v["old"] = json!([]);
+        v["new"] = json!([]);
+        v["big"] = json!(2100);
+        out.emit(&v);
     }
     // IdentifyDistinct
     let nid = if thorough { 6000 } else { 600 };
@@ -491,6 +504,37 @@ pub fn drive_c20(a: &Args, out: &mut Out) {
             let case = out.next_case();
             out.emit(&json!({"ev":"determ","case":case,"alg":alg_name(alg),"old":seq_json(x),"new":seq_json(y),
                 "variants":variants,"runs":runs}));
+        }
+    }
+    // more than 65 536 unique items per side, with anchors that matter (Patience and Myers disagree):
+    // blocks [S_1..S_20, U, r, r, r] against [S_1..S_20, r, r, r, U]
+    {
+        let blocks = 3400u32;
+        let (mut x, mut y): (Vec<u32>, Vec<u32>) = (vec![], vec![]);
+        for b in 0..blocks {
+            let base = 10 + b * 30;
+            for k in 0..20 {
+                x.push(base + k);
+                y.push(base + k);
+            }
+            x.push(base + 25);
+            x.extend([1, 1, 1]);
+            y.extend([1, 1, 1]);
+            y.push(base + 25);
+        }
+        for alg in [Algorithm::Patience, Algorithm::Myers] {
+            let mut runs: Vec<Value> = vec![];
+            for _ in 0..3 {
+                let (x2, y2) = (x.clone(), y.clone());
+                let ops = std::thread::spawn(move || capture_diff_slices(alg, &x2, &y2)).join();
+                runs.push(match ops {
+                    Ok(o) => ops_json(&o),
+                    Err(_) => json!([[-1]]),
+                });
+            }
+            let case = out.next_case();
+            out.emit(&json!({"ev":"determ","case":case,"alg":alg_name(alg),"old":[],"new":[],"big":x.len(),
+                "variants":[],"runs":runs}));
         }
     }
     // str vs the same bytes
